@@ -319,9 +319,10 @@ class C20(Property):
                   "meaning. The 7000 lines of Go are NOT proved: they are validated against the model per generated program "
                   "(Go scanner tokens -> model parser = Go parser's AST; tokens of format.Source(p) = print (norm AST); "
                   "byte idempotence; no panic/hang on mutated invalid sources).")
-    level_note = ("partial: proof of the grammar model + translation validation. Comments are outside the model; comment "
-                  "positions where the pinned formatter is known to misbehave (findings F10, F13-F17) are generated only when "
-                  "the corresponding known-finding id is registered.")
+    level_note = ("partial: proof of the grammar model + translation validation of the Go formatter. Comments are outside "
+                  "the model; comment positions / constructs where the pinned formatter misbehaves (F10 and the C20-* findings "
+                  "of notes/C20.md) are generated only when a probe shows the tree no longer has the defect or the finding id "
+                  "is a known/fixed line of KNOWN_FINDINGS.jsonl.")
     rule = ("programs: 1..9 statements of every kind (syntax/info/import single+group/type single+group with nested structs, "
             "arrays, slices, maps, pointers, any, interface{}, embedded fields, tags/@server/service with @doc/@handler/routes), "
             "comments (line/block/doc, own line, end of line, inline block) and odd spacing; 4 mutants each; non-trivial = the Go "
